@@ -353,7 +353,7 @@ fn run_case<G: AffineRepr>(env: &Env<G>, c: &Case) -> CaseOut {
 
 fn cases(ctx: &Ctx, curve: &str) -> Vec<Case> {
     let mut r = R::new(ctx.sub_seed(5, curve.len() as u64));
-    let n = ctx.n(60, 3000);
+    let n = ctx.n(400, 6000);
     let mut v = vec![];
     let forced = [
         GenCfg { q: 3, ..GenCfg::simple(0, 0) },
